@@ -552,9 +552,13 @@ class Bits:
             if offset is None:
                 offset = 0
             m = mmap.mmap(source.fileno(), 0, access=mmap.ACCESS_READ)
-            if offset == 0:
+            if offset == 0 and (length is None or length == m.size() * 8):
                 self._filename = source.name
                 self._bitstore = BitStore.frombuffer(m, length=length)
+            elif offset == 0:
+                # A length shorter than the file is read into memory, as many operations act on the whole buffer.
+                temp = BitStore.frombuffer(m, length=length)
+                self._bitstore = temp.getslice_msb0(0, length)
             else:
                 # If offset is given then always read into memory.
                 temp = BitStore.frombuffer(m)
